@@ -16,6 +16,7 @@ type ClusterSpec struct {
 	Peers      []PeerSpec      `json:"peers,omitempty"`
 	Comms      []CommunitySpec `json:"comms,omitempty"`
 	BFD        []BFDSpec       `json:"bfd,omitempty"`
+	Extras     string          `json:"extras,omitempty"` // content of the bgpextras ConfigMap ("" = no ConfigMap)
 }
 
 func (c ClusterSpec) Pool(name string) *PoolSpec {
